@@ -3,7 +3,8 @@
 # A patch made before a hook commit may conflict with probe lines; conflicts are resolved by
 # taking the patch's side (probe lines inside the conflicting hunk are dropped for that run).
 P="$(realpath "$1")"; ID="$2"; TIER="${3:-quick}"
-cd /repo || exit 2
+R="${VERIF_REPO:-/repo}"
+cd "$R" || exit 2
 git diff --quiet || { echo "repo dirty"; exit 2; }
 if ! git apply "$P" 2>/dev/null; then
   git apply --3way "$P" >/dev/null 2>&1
@@ -18,12 +19,12 @@ PY
   git reset -q
 fi
 git diff --stat | tail -1
-cd /verif && ./check "$ID" --tier "$TIER" > /tmp/try_seeded.$$ 2>&1
+cd ${VERIF_ROOT:-/verif} && ./check "$ID" --tier "$TIER" > /tmp/try_seeded.$$ 2>&1
 RC=$?
 grep -c "^VIOLATION" /tmp/try_seeded.$$ | sed 's/^/violations: /'
 grep "^VIOLATION" /tmp/try_seeded.$$ | head -${LINES_SHOWN:-3} | cut -c1-260
 tail -2 /tmp/try_seeded.$$ | cut -c1-400
 rm -f /tmp/try_seeded.$$
-git -C /repo checkout -- .
+git -C "$R" checkout -- .
 echo "exit=$RC"
 exit $RC
